@@ -212,7 +212,7 @@ Definition r_leaf (c : cfg) (save : bool) (t : Z) (st : mstate) (l : list Z) : o
 (* ---- containers: children read by `robj` ---- *)
 Definition r_container (c : cfg) (robj : mstate -> result (pv * mstate)) (save : bool) (t : Z) (st : mstate) (l : list Z)
   : option (result (pv * mstate)) :=
-  let len := List.length l in
+  let len := S (List.length l) in      (* loop fuel: each object takes at least one byte; one extra round to meet the end *)
   if (t =? 41) || (t =? 40) || (t =? 60) || (t =? 62) then Some (         (* ')' '(' '<' '>' *)
     do2 (n, l1) <- (if t =? 41 then read_u8 c l else read_s32 c l);
     if strict c && (n <? 0) then Err ValueErr else
